@@ -120,6 +120,9 @@ pub struct W<'a> {
     /// entries defined since the last xref section was written
     pub pending: BTreeMap<u32, XEntry>,
     pub last_xref: Option<usize>,
+    /// cross-reference streams: write /W [0 n m] (no type field; every entry then is of the default type 1) whenever all
+    /// entries of the section are ordinary in-use entries
+    pub omit_type_field: bool,
 }
 
 impl<'a> W<'a> {
@@ -127,7 +130,7 @@ impl<'a> W<'a> {
         let mut buf = prefix.to_vec();
         let base = buf.len();
         buf.extend_from_slice(format!("%PDF-{}\n%\u{e2}\u{e3}\u{cf}\u{d3}\n", version).as_bytes().iter().map(|&b| b).collect::<Vec<u8>>().as_slice());
-        W { buf, base, crypt: None, pending: BTreeMap::new(), last_xref: None }
+        W { buf, base, crypt: None, pending: BTreeMap::new(), last_xref: None, omit_type_field: false }
     }
     pub fn pos(&self) -> usize { self.buf.len() - self.base }
     pub fn obj(&mut self, nr: u32, gen: u16, o: &Obj) {
@@ -210,6 +213,7 @@ impl<'a> W<'a> {
         let maxf3 = entries.values().map(|e| match e { XEntry::Free { gen, .. } | XEntry::InUse { gen, .. } => *gen as u64, XEntry::Compressed { idx, .. } => *idx as u64 }).max().unwrap_or(0);
         let w2 = ((64 - maxf2.leading_zeros() as usize + 7) / 8).max(1);
         let w3 = ((64 - maxf3.leading_zeros() as usize + 7) / 8).max(1);
+        let no_type = self.omit_type_field && entries.values().all(|e| matches!(e, XEntry::InUse { .. }));
         let mut data = Vec::new();
         let mut index = Vec::new();
         let mut i = 0;
@@ -223,7 +227,7 @@ impl<'a> W<'a> {
                     XEntry::InUse { off, gen } => (1, off as u64, gen as u64),
                     XEntry::Compressed { stm, idx } => (2, stm as u64, idx as u64),
                 };
-                data.push(t);
+                if !no_type { data.push(t); }
                 data.extend_from_slice(&a.to_be_bytes()[8 - w2..]);
                 data.extend_from_slice(&b.to_be_bytes()[8 - w3..]);
             }
@@ -231,7 +235,7 @@ impl<'a> W<'a> {
         }
         let (mut extra, enc) = encode(&data);
         let mut d: Vec<(Vec<u8>, Obj)> = vec![(b"Type".to_vec(), name("XRef")), (b"Size".to_vec(), Obj::Int(size as i64)),
-            (b"W".to_vec(), ints(&[1, w2 as i64, w3 as i64])), (b"Index".to_vec(), Obj::Arr(index))];
+            (b"W".to_vec(), ints(&[if no_type { 0 } else { 1 }, w2 as i64, w3 as i64])), (b"Index".to_vec(), Obj::Arr(index))];
         if let Some(p) = self.last_xref { d.push((b"Prev".to_vec(), Obj::Int(p as i64))); }
         d.append(&mut trailer);
         d.append(&mut extra);
